@@ -193,8 +193,8 @@ func isNumType(t string) bool {
 
 func genDefault(r *rng.R, typ string, s *hSchema, o genOpts) string {
 	if isNumType(typ) {
-		d := rng.Pick(r, []string{"0", "1", "42", "-7", "-1", "3.5", "-0.25", "(1+2)", "(abs(-3))", "1e3", "+5"})
-		if o.atlasSafe && (d == "+5" || d == "1e3") {
+		d := rng.Pick(r, []string{"0", "1", "42", "-7", "-1", "3.5", "-0.25", "(1+2)", "(abs(-3))", "1e3", "+5", "1.50", "007", "3.14159265358979", "0.1234567890123"})
+		if o.atlasSafe && (d == "+5" || d == "1e3" || d == "007") {
 			d = "7"
 		}
 		switch {
@@ -218,7 +218,7 @@ func genDefault(r *rng.R, typ string, s *hSchema, o genOpts) string {
 		s.tag("default-current")
 		return rng.Pick(r, []string{"CURRENT_TIMESTAMP", "current_timestamp", "(datetime('now'))", "'2020-01-01'"})
 	}
-	d := rng.Pick(r, []string{"'abc'", "''", "'it''s'", "'a b'", `'q"q'`, "'a,b'", "'(x'", "'x)'", "'-- no'", "'check (x)'", "'CONSTRAINT c CHECK (y)'", "'AS (z'", "('x' || 'y')", "'ünï'", `"dq"`, "'a''b''c'", "'%'", "'\\'", "'{}'", "'[]'", "NULL"})
+	d := rng.Pick(r, []string{"'abc'", "''", "'it''s'", "'a b'", `'q"q'`, "'a,b'", "'(x'", "'x)'", "'-- no'", "'check (x)'", "'CONSTRAINT c CHECK (y)'", "'AS (z'", "('x' || 'y')", "'ünï'", `"dq"`, "'a''b''c'", "'%'", "'\\'", "'{}'", "'[]'", "NULL", "'''a'''", "''''"})
 	if o.atlasSafe && (d == `"dq"` || d == "NULL") {
 		d = "'plain'"
 	}
